@@ -14,6 +14,10 @@ that names it from that point: enclosing definition, module level, included subm
                deviations at two instances of one grouping): outside the target position(s) the dumps are identical, every
                target subtree in the two-mutation run equals the one of the corresponding one-mutation run, `treeviol`
                (pointer-level walker: sharing, parent pointers) is empty.
+  spec         the extracted reference expansion inline_schema (coq/Spec/C06.v; theorem C06_T1_process: Process of the inlined
+               set = Process of the set) applied to every generated set equals, token for token, the generator's own
+               inlining in the spec's form (nested grouping definitions copied along); the text handed to the
+               implementation differs from it only by those unused definitions.
   negative     unknown / out-of-scope / cyclic references: model and implementation both report an error.
 """
 import random
@@ -24,6 +28,8 @@ import lib
 from props import schema_gen as sg
 
 MAXU64 = sg.MAXU64
+# the extracted spec oracle is linked into the driver unless a VERIF_PARTS selection leaves it out
+HAVE_SPEC = (not lib.PARTS) or ("c06" in lib.PARTS)
 
 
 # ------------------------------------------------------------------ scope frames (the generator's own scoping knowledge)
@@ -467,30 +473,34 @@ def gen_hook_world(rnd):
 
 
 # ------------------------------------------------------------------ the generator's own inlining
-def inline_body(body, drop_groupings=False):
+def inline_body(body, drop_groupings=False, spec=False):
+    """spec=True: exactly what coq/Spec/C06.v inline_body does -- ALL statements of the grouping are copied, its nested
+    grouping definitions included (nothing refers to them any more); default: only the data nodes are copied (the form
+    the YANG parser accepts everywhere)"""
     out = []
     for n in body:
         k = n[0]
         if k == "uses":
-            out += [x for x in inline_body(n[2][3]) if x[0] != "grouping"]
+            out += [x for x in inline_body(n[2][3], spec=spec) if spec or x[0] != "grouping"]
         elif k == "grouping":
             if not drop_groupings:
-                out.append(("grouping", n[1], n[2], inline_body(n[3])))
+                out.append(("grouping", n[1], n[2], inline_body(n[3], spec=spec)))
         elif k in ("container", "list", "choice", "case", "notification"):
-            out.append(n[:-1] + (inline_body(n[-1]),))
+            out.append(n[:-1] + (inline_body(n[-1], spec=spec),))
         elif k == "rpc":
-            out.append(n[:3] + (None if n[3] is None else inline_body(n[3]), None if n[4] is None else inline_body(n[4])))
+            out.append(n[:3] + (None if n[3] is None else inline_body(n[3], spec=spec),
+                                None if n[4] is None else inline_body(n[4], spec=spec)))
         else:
             out.append(n)
     return out
 
 
-def inline_schema(mods):
+def inline_schema(mods, spec=False):
     out = []
     for m in mods:
         m2 = dict(m)
-        m2["body"] = inline_body(m["body"])
-        m2["augments"] = [(p, inline_body(b)) for p, b in m["augments"]]
+        m2["body"] = inline_body(m["body"], spec=spec)
+        m2["augments"] = [(p, inline_body(b, spec=spec)) for p, b in m["augments"]]
         out.append(m2)
     return out
 
@@ -1015,6 +1025,25 @@ def run(res, tier, seed, proof):
         stats["max_nodes"] = max(stats["max_nodes"], sum(count_nodes(m["body"]) for m in s_inl))
     go = run_go(lines_go)
     ml = lib.run_ml(lines_ml)
+    # the reference expansion of coq/Spec/C06.v (extracted [inline_schema], command `inline`) against the generator's own
+    # inlining: the proved spec and the text handed to the implementation are the same expansion
+    if HAVE_SPEC:
+        sp = lib.run_ml(["inline" + l[len("resolve"):] for l in lines_ml[0::2]])
+        stats["spec_inline_compared"] = 0
+        for wi, w in enumerate(worlds):
+            want = "ok " + " ".join(sg.enc_list(plain(inline_schema(w.mods, spec=True)), sg.enc_module))
+            if sp[wi] == "none":
+                # unknown / cyclic reference or fuel: the model must report an error (C06_T3)
+                stats["spec_inline_none"] = stats.get("spec_inline_none", 0) + 1
+                if ml[2 * wi] != "err":
+                    violation("inline_schema fails but the model builds the set without error",
+                              dict(kind="spec-inline", ml_case=lines_ml[2 * wi]))
+                continue
+            stats["spec_inline_compared"] += 1
+            if sp[wi] != want:
+                violation("the extracted reference expansion inline_schema and the generator's own inlining differ",
+                          dict(kind="spec-inline", ml_case=lines_ml[2 * wi], spec=sp[wi][:3000], generator=want[:3000],
+                               text="\n".join(sg.render_module(m) for m in meta[wi][0])))
     base_ok = []
     for wi, (s_uses, s_inl) in enumerate(meta):
         gu, stu, ju = go_obs(go[2 * wi])
@@ -1229,7 +1258,7 @@ def run(res, tier, seed, proof):
             violation("tree invariant violated after a clean Process: %s" % j["runs"][-1]["treeviol"][:3],
                       dict(rep, treeviol=j["runs"][-1]["treeviol"]))
 
-    evaluations = len(lines_go) + len(ind_lines) + len(neg) + len(pos) + len(reg) + n_con
+    evaluations = len(lines_go) + len(ind_lines) + len(neg) + len(pos) + len(reg) + n_con + stats.get("spec_inline_compared", 0)
     cov = dict(
         evaluations=evaluations,
         distinct_nontrivial=stats["ok"] + stats["independence_single"] + stats["independence_double"],
